@@ -456,7 +456,14 @@ func (g *gen) router(n map[string]any) {
 		if g.r.Chance(1, 2) {
 			w := map[string]any{"type": "msg"}
 			if g.voice && g.r.Bool() {
-				w = map[string]any{"type": "dial", "phone": "@fields.supervisor"}
+				w = map[string]any{"type": "dial", "phone": g.tplNonEmpty()} // evaluated: the number to dial
+				// limits: absent means the defaults (60 s / 2 h), 0 is a value of its own
+				if g.r.Bool() {
+					w["dial_limit_seconds"] = hx.Pick(g.r, []int{0, 30, 60})
+				}
+				if g.r.Bool() {
+					w["call_limit_seconds"] = hx.Pick(g.r, []int{0, 600, 7200})
+				}
 			} else {
 				if g.r.Chance(1, 3) {
 					w["timeout"] = map[string]any{"seconds": 60 * g.r.Range(1, 10), "category_uuid": catIDs[0]}
